@@ -11,12 +11,14 @@ META = {
                   "code applies them. TLC model-checks all 256 selectors x 25 boundary lengths x 12 abstract output lengths (126 854 states) for "
                   "never-expand, prefix-iff-shrunk, supported-selectors-succeed, own-output-accepted (outside the named 1000:1 region) and "
                   "decode-is-reverse-of-encode (outside named, TLC-proved-exact dispatch deviations). TLC then enumerates "
-                  "selector x length x content-class cases; the driver runs the real compress / decompress / decompress_secure on each (child processes, per-case watchdog); "
+                  "selector x length x content-class cases, ratio-target cases around the limits the model knows, and call-history cases; the driver runs the real compress / decompress / decompress_secure on each (child processes, per-case watchdog); "
                   "TLC validates every recorded round trip against the model (content equality as token equality).",
     "level_note": "Byte-level correctness of zlib/bzip2/LZMA/PKWare/sparse is observed (token equality on the enumerated classes), not "
                   "modelled: codecs are uninterpreted stages in Codec.tla. ADPCM (lossy): length, lane-swap equivariance and "
                   "silent-lane placement (peak amplitude thresholds 64 vs half the input peak) only. Lengths up to 2^21 in thorough (every codec at 2^20, 2^20+1, 2^21), up to 65537 in quick plus LZMA and bzip2 at 2^20+1. "
-                  "Assumption A1: a codec stage emits at least one byte for non-empty input.",
+                  "Assumption A1: a codec stage emits at least one byte for non-empty input. Ratio cases: the driver searches the length "
+                  "that produces a target expected/stored ratio (126..130 for sparse zeros, 999..1001 for zlib/bzip2/LZMA). History cases: "
+                  "one unit decompressed 600 times (1.2 GiB; thorough: 8 300 times = 16.2 GiB) in one process.",
     "technique": "TLA+ model of the codec dispatch/limit logic checked by TLC; TLC-enumerated cases replayed on the real codecs; trace validation by TLC",
     "design_ref": "DESIGN.md section 5, C03",
     "crates": ["c03"],
@@ -35,6 +37,12 @@ def nontrivial(r):
 def run(ctx, cases_override=None):
     ctx.mc("MC_Codec", timeout=600,
            expect_actions=["RunPipeline", "StoreRaw", "EmitPrefixed", "LimitCheck", "DecodeStep"])
+    # negative control: with a decompress() session tracker shared by all calls of the process TLC must find a
+    # counterexample to HistoryIndependent (the model can tell the two designs apart)
+    rc, text = ctx.tlc("MC_Codec", "MC_Codec_neg", workers=4, timeout=300, tag="mc-neg")
+    if "Invariant HistoryIndependent is violated" not in text:
+        raise core.ToolError("stage A: negative control MC_Codec_neg: no counterexample to HistoryIndependent:\n" + core._tail(text))
+    core.log("(A) MC_Codec/MC_Codec_neg: negative control ok (shared session tracker violates HistoryIndependent)")
     if cases_override:
         cases, ncases = cases_override, sum(1 for _ in open(cases_override))
     else:
@@ -47,7 +55,7 @@ def run(ctx, cases_override=None):
         for line in f:
             r = json.loads(line)
             if r["ev"] != "RT":
-                if r["ev"] in ("Hang", "Abort"):
+                if r["ev"] in ("Hang", "Abort", "Hist"):
                     kinds[r["ev"]] = kinds.get(r["ev"], 0) + 1
                 continue
             k = "compress-" + r["cres"] if r["cres"] != "ok" else ("raw" if r["raw"] else "shrunk:" + r["dres"])
